@@ -20,7 +20,7 @@ RULE = (
     "restricted-domain subjects (Exp/Tanh/Sigmoid/CauchyCDF inverses, Logit/CauchyCDFInverse forwards, the 4 bare box splines with 3 boxes, the 4 CDF transforms, "
     "the 4 piecewise couplings (2-D and image), the 4 masked autoregressive splines; both directions) and unrestricted ones with linear tails (tail bounds 1, 2.5, 16, 32, "
     "100, 1e3, 1e4) x dtype {float32, float64} x pattern {zero, pat1} x boundary alphabet {lo, hi, 1 ulp inside, 1 ulp outside, 1 unit outside, +-tail bound and ulp "
-    "neighbours} placed at EVERY (batch row, feature) position of a 3 x D batch with all other entries interior. Non-trivial = the probe value is not interior."
+    "neighbours; the unrestricted direction of the elementwise subjects: 0, +-30, +-80} placed at EVERY (batch row, feature) position of a 3 x D batch with all other entries interior. Non-trivial = the probe value is not interior."
 )
 ASSUMPTIONS = [
     "the domain of each direction is taken from the documentation: closed [left,right] / [bottom,top] for box splines, (0,inf) for Exp^-1, (-1,1) for Tanh^-1, [0,1] for Sigmoid^-1 and CauchyCDF^-1",
@@ -85,7 +85,8 @@ def probes(spec, npdt):
     """list of (value, expected 'in'|'out', cell class)"""
     out = []
     if spec is None:
-        return [(0.0, "in", "zero"), (1e3, "in", "far"), (-1e3, "in", "far")]
+        # the whole real line: every representable moderate value must give finite numbers (+-80: exp(80) is still a float32)
+        return [(0.0, "in", "zero"), (30.0, "in", "far"), (-30.0, "in", "far"), (80.0, "in", "farther"), (-80.0, "in", "farther")]
     if spec[0] == "tails":
         tb = spec[1]
         for s in (1.0, -1.0):
@@ -184,8 +185,8 @@ def all_cases(tier, seed):
         for pname in pats:
             for dname in DT:
                 for direction, spec in (("forward", fspec), ("inverse", ispec)):
-                    if spec is None:
-                        continue  # unrestricted direction without tails: nothing to decide
+                    if spec is None and sname.startswith(("splinefn_", "Piecewise", "MaskedPiecewise")):
+                        continue  # (spline subjects: the unrestricted case is the one with tails, enumerated separately)
                     yield {"subject": sname, "over": over, "pattern": pname, "seed": seed, "dtype": dname, "direction": direction, "spec": None if spec is None else list(spec)}
 
 
